@@ -259,3 +259,64 @@ pub fn paused_runtime(seed: u64) -> tokio::runtime::Runtime {
         .build()
         .expect("paused runtime")
 }
+
+/// `SimClient` bound to the N-th simulator exchange (`ExecutionClient::EXCHANGE` is a const, and
+/// `ExecutionBuilder::add_live` derives the exchange from it).
+#[derive(Clone)]
+pub struct SimClientN<const N: usize>(pub SimClient);
+
+impl<const N: usize> ExecutionClient for SimClientN<N> {
+    const EXCHANGE: ExchangeId = crate::world::EXS[N];
+    type Config = SimClient;
+    type AccountStream = UnboundedReceiverStream<UnindexedAccountEvent>;
+
+    fn new(config: Self::Config) -> Self {
+        SimClientN(config)
+    }
+    fn account_snapshot(
+        &self,
+        a: &[AssetNameExchange],
+        i: &[InstrumentNameExchange],
+    ) -> impl Future<Output = Result<UnindexedAccountSnapshot, UnindexedClientError>> + Send {
+        self.0.account_snapshot(a, i)
+    }
+    fn account_stream(
+        &self,
+        a: &[AssetNameExchange],
+        i: &[InstrumentNameExchange],
+    ) -> impl Future<Output = Result<Self::AccountStream, UnindexedClientError>> + Send {
+        self.0.account_stream(a, i)
+    }
+    fn cancel_order(
+        &self,
+        request: OrderRequestCancel<ExchangeId, &InstrumentNameExchange>,
+    ) -> impl Future<Output = UnindexedOrderResponseCancel> + Send {
+        self.0.cancel_order(request)
+    }
+    fn open_order(
+        &self,
+        request: OrderRequestOpen<ExchangeId, &InstrumentNameExchange>,
+    ) -> impl Future<
+        Output = Order<ExchangeId, InstrumentNameExchange, Result<Open, UnindexedOrderError>>,
+    > + Send {
+        self.0.open_order(request)
+    }
+    fn fetch_balances(
+        &self,
+    ) -> impl Future<Output = Result<Vec<AssetBalance<AssetNameExchange>>, UnindexedClientError>> {
+        self.0.fetch_balances()
+    }
+    fn fetch_open_orders(
+        &self,
+    ) -> impl Future<
+        Output = Result<Vec<Order<ExchangeId, InstrumentNameExchange, Open>>, UnindexedClientError>,
+    > {
+        self.0.fetch_open_orders()
+    }
+    fn fetch_trades(
+        &self,
+        t: DateTime<Utc>,
+    ) -> impl Future<Output = Result<Vec<Trade<QuoteAsset, InstrumentNameExchange>>, UnindexedClientError>> {
+        self.0.fetch_trades(t)
+    }
+}
